@@ -175,6 +175,14 @@ class Ops:
                 return ("tuple", tuple(items))
             except (ValueError, IndexError):
                 pass
+        if head[0] == "f" and v[0] == "closure":
+            try:
+                i = int(head[1])
+                items = list(v[2])
+                items[i] = new
+                return ("closure", v[1], tuple(items))
+            except (ValueError, IndexError):
+                pass
         if head[0] == "d":
             return new
         if head == ("f", "0") and v[0] in ("bb", "bbconst", "bbof", "and", "or", "xor", "not"):
@@ -294,6 +302,8 @@ class Ops:
             return TRUE if base == "Eq" else FALSE
         if base in ("Eq", "Ne") and a[0] == "agg" and b[0] == "agg" and a[1] == b[1] and a[2] != b[2]:
             return FALSE if base == "Eq" else TRUE
+        if base in ("Eq", "Ne") and a[0] == "agg" and b[0] == "agg" and a[1] == b[1] and a[2] == b[2] and len(a[4]) == 1 and len(b[4]) == 1:
+            return self.bin(base, a[4][0][1], b[4][0][1])      # same single-field variant (Some(x) == Some(y))
         if base in COMM and repr(b) < repr(a):
             a, b = b, a
         return ("bin", base, a, b)
@@ -487,14 +497,92 @@ class SymExec:
                     for s in blk["stmts"]:
                         if s["k"] in ("assign", "setdiscr"):
                             add(s["pl"])
-                            if s["k"] == "assign" and s["rv"]["k"] in ("ref", "rawptr") and s["rv"]["mut"]:
+                            if s["k"] == "assign" and s["rv"]["k"] in ("ref", "rawptr") and s["rv"]["mut"] and not s.get("env"):
                                 add(s["rv"]["pl"])
                     t = blk["term"]
                     if t["k"] == "call":
                         add(t["dest"])
+                        if "clos" in t["callee"]:
+                            for wpl in self.closure_writes(body, t["callee"]["clos"]):
+                                if wpl is None:
+                                    mem = True
+                                else:
+                                    add(wpl)
                 w[h] = (locs, mem)
             self._loopw[k] = w
         return self._loops[k], self._loopw[k]
+
+    def closure_writes(self, body, cl, depth=0):
+        """places of `body` that a call of the closure held in local `cl` may write: pointees of upvars
+        captured by `&mut`, and by-value upvars the closure body assigns (None = unknown memory)"""
+        defs = []
+        for blk in body.blocks:
+            for s in blk["stmts"]:
+                if s["k"] == "assign" and s["pl"]["l"] == cl and not s["pl"]["p"]:
+                    defs.append(s["rv"])
+            if blk["term"]["k"] == "call" and blk["term"]["dest"]["l"] == cl:
+                defs.append(None)
+        if len(defs) != 1 or defs[0] is None:
+            return [None]
+        rv = defs[0]
+        if rv["k"] == "use":
+            op = rv["op"]
+            if op["k"] == "const":
+                return []                      # capture-less closure or fn item
+            if not op["pl"]["p"] and depth < 4:
+                return self.closure_writes(body, op["pl"]["l"], depth + 1)
+            return [None]
+        if not (rv["k"] == "agg" and rv.get("ak") == "closure"):
+            return [None]
+        cb = self.facts.bodies.get(rv["closure"])
+        if cb is None:
+            return [None]
+        out = []
+        # upvars that are `&mut` borrows of the enclosing function's places
+        for k, op in enumerate(rv["ops"]):
+            if op["k"] not in ("move", "copy") or op["pl"]["p"]:
+                continue
+            ul = op["pl"]["l"]
+            if not body.locals[ul]["ty"].startswith("&mut"):
+                continue
+            srcs = []
+            for blk in body.blocks:
+                for s in blk["stmts"]:
+                    if s["k"] == "assign" and s["pl"]["l"] == ul and not s["pl"]["p"]:
+                        srcs.append(s["rv"])
+            if len(srcs) == 1 and srcs[0]["k"] in ("ref", "rawptr"):
+                out.append(srcs[0]["pl"])
+            elif len(srcs) == 1 and srcs[0]["k"] == "use" and srcs[0]["op"]["k"] in ("move", "copy"):
+                out.append({"l": srcs[0]["op"]["pl"]["l"], "p": list(srcs[0]["op"]["pl"]["p"]) + ["deref"]})
+            else:
+                out.append(None)
+        # by-value upvars assigned (or mutably borrowed) inside the closure body
+        if cb.locals[1]["ty"].startswith("&mut") or not cb.locals[1]["ty"].startswith("&"):
+            def upvar_of(pl):
+                if pl["l"] != 1:
+                    return None
+                pr = pl["p"]
+                if pr and pr[0] == "deref":
+                    pr = pr[1:]
+                if pr and isinstance(pr[0], dict) and "f" in pr[0] and "deref" not in pr[1:]:
+                    return pr[0]["n"]
+                return None
+            for blk in cb.blocks:
+                if blk["cleanup"]:
+                    continue
+                for s in blk["stmts"]:
+                    if s["k"] != "assign":
+                        continue
+                    u = upvar_of(s["pl"])
+                    if u is None and s["rv"]["k"] in ("ref", "rawptr") and s["rv"]["mut"]:
+                        u = upvar_of(s["rv"]["pl"])
+                    if u is not None:
+                        out.append({"l": cl, "p": [{"f": int(u), "n": u}]})
+                if blk["term"]["k"] == "call":
+                    u = upvar_of(blk["term"]["dest"])
+                    if u is not None:
+                        out.append({"l": cl, "p": [{"f": int(u), "n": u}]})
+        return out
 
     def should_inline(self, name, depth):
         if depth >= self.max_depth:
@@ -1115,6 +1203,33 @@ class SymExec:
         o = self.ops
         args = tuple(self.operand(st, fr, a) for a in t["args"])
         depth = len(st.frames) - 1
+        if "clos" in callee:
+            # direct call of a closure value (synthesised by cva/desugar.py)
+            cv = self.local_val(st, fr, callee["clos"])
+            cb = self.facts.bodies.get(cv[1]) if cv[0] == "closure" else None
+            if cb is not None and depth < self.max_depth + 6 and cb.argc == len(args):
+                nf = Frame(cb, st.nfid, fr.cgen, fr.tgen)
+                st.nfid += 1
+                nf.ret_dest = t["dest"]
+                nf.ret_target = t["t"]
+                env = args[0] if cb.locals[1]["ty"].startswith("&") else cv
+                st.store[("L", nf.fid, 1)] = env
+                for i, a in enumerate(args[1:]):
+                    st.store[("L", nf.fid, i + 2)] = a
+                ev = Event(idx=len(st.events), kind="inlined", name=cv[1], decl="<closure-call>", args=args,
+                           targs=(), bb=fr.bb, fn=fr.body.key, line=t["sp"]["line"], ncond=len(st.conds),
+                           ret=None, depth=depth)
+                ev.extra = {"exp": t["sp"]["exp"], "pointees": {}}
+                st.events.append(ev)
+                st.frames.append(nf)
+                nf.bb = 0
+                if not self.enter_block(st, nf, 0):
+                    self.finish(st, "loopback")
+                    return "end"
+                return "cont"
+            # unknown callable (a generic parameter): same shape as a call through FnMut
+            callee = {"fn": "core::ops::function::FnMut::call_mut", "targs": []}
+            args = (args[0], ("tuple", tuple(args[1:])))
         if "fn" not in callee:
             fv = self.operand(st, fr, callee["indirect"])
             val = ("callind", fv, args)
